@@ -63,6 +63,16 @@ class Z3Dom:
         self.unknown_seen = False
         self.declared: set = set()
 
+    def view(self, gi_term: Any, tag: str) -> "Z3Dom":
+        """A second executing transaction in the same group: shares the solver, the group and all field
+        functions, but runs at slot ``gi_term`` and names its fresh values with ``tag``."""
+        import copy
+
+        v = copy.copy(self)
+        v.gi = gi_term
+        v.tag = tag
+        return v
+
     # -- terms ------------------------------------------------------------------------------
     def const(self, n: int) -> z3.ArithRef:
         return z3.IntVal(n)
@@ -109,6 +119,7 @@ class Z3Dom:
         return t
 
     def fresh(self, key: str, lo: int = 0, hi: int = MAX_UINT64) -> z3.ArithRef:
+        key = getattr(self, "tag", "") + key
         v = self.fresh_vars.get(key)
         if v is None:
             v = z3.Int("fr!" + key)
